@@ -27,7 +27,7 @@ func generateSliceProgram(tp *sim.Tape) string {
 		ns := 3 + tp.Draw(6)
 		for q := 0; q < ns; q++ {
 			var l []string
-			switch tp.Pick(2, 3, 4, 3, 3, 2, 2, 5, 2, 2) {
+			switch tp.Pick(2, 4, 4, 3, 3, 2, 2, 1, 3, 2) {
 			case 0:
 				l = []string{"s = this.buf[..]"}
 			case 1: // constant bounds
@@ -36,6 +36,22 @@ func generateSliceProgram(tp *sim.Tape) string {
 					a, b = b, a
 				}
 				l = []string{fmt.Sprintf("s = this.buf[%d .. %d]", a, b)}
+				if b > a && tp.Chance(3, 4) {
+					// a use that the recorded length (b - a) justifies - or,
+					// one time in five, just does not (index == length)
+					c := tp.Draw(b - a)
+					if tp.Chance(1, 5) {
+						c = b - a
+					}
+					switch tp.Pick(3, 1, 1) {
+					case 0:
+						l = append(l, fmt.Sprintf("r ~mod+= s[%d] as base.u32", c))
+					case 1:
+						l = append(l, fmt.Sprintf("s[%d] = 7", c))
+					default:
+						l = append(l, fmt.Sprintf("t = s[.. %d]", c))
+					}
+				}
 			case 2: // non-constant lower bound, constant upper bound
 				b := k()
 				l = []string{fmt.Sprintf("if i <= %d {", b), fmt.Sprintf("\ts = this.buf[i .. %d]", b), "}"}
